@@ -557,15 +557,17 @@ local notation "𝕊" => fieldScalar K e ninf
 
 /-- **All score factors stay within their documented ranges along every run of the shell.**  From any
 state whose cached quality multipliers are in `[0.35, 1.1 × 1.03]` (fresh links carry `1.0`, see
-`_from_init`), after EVERY list of events of the shell (the same induction as `SysLevel.QualInv_run`, on
+`_from_init`), after EVERY list of events of the shell — arbitrary verdict stamps (`Ev.stamp`) between any
+two other events included — (the same induction as `SysLevel.QualInv_run`, on
 `Lemmas/SysInv.step_all` + `SysInvQual.qualRange_closed`), for every link `l` of the reached state:
 * the cached quality multiplier is in `[0.35, 1.1 × 1.03]`;
 * the value a selection pass at ANY clock `now` would use for the link — the cached one, or
   `calculate_quality_multiplier` if the 50 ms cache is stale — is in `[0.35, 1.1 × 1.03]`, and so is the
   value it would leave in the cache;
 * the soft-cap factor is in `[0.1, 1]` for the link's own CC target / measured bitrate AND for any other
-  values of them (`tgt`, `br` arbitrary: the classifier / link-CC passes that stamp them run outside
-  `Sys.step`, so nothing is assumed about them);
+  values of them (`tgt`, `br` arbitrary; since round 4 the classifier / link-CC stamps are the shell event
+  `Ev.stamp` with the verdicts as inputs, so runs already include arbitrary CC targets — the extra
+  quantifier also covers bitrates the run does not produce);
 * the RTT bonus is in `[1, 1.03]`.
 Exact arithmetic under `ExpLaw e` (IEEE rounding / NaN are not part of this proof; the monitors
 `quality-range`, `softcap-range` assert the same ranges on the real code). -/
